@@ -136,11 +136,11 @@ func ruleC13Isolation(c *Ctx) {
 		}
 		fi := fieldOfAddr(fa)
 		if fi.Struct != nil && isNamed(fi.Struct, "os/exec", "Cmd") {
-			switch fi.Var.Name() {
+			switch vname(fi.Var) {
 			case "Env":
 				envStores = append(envStores, st)
 			default:
-				c.undecided("C13.isolation", "cmd."+fi.Var.Name(), st.Pos(), name, "GitCommand writes exec.Cmd."+fi.Var.Name()+", which the isolation rule does not model")
+				c.undecided("C13.isolation", "cmd."+vname(fi.Var), st.Pos(), name, "GitCommand writes exec.Cmd."+vname(fi.Var)+", which the isolation rule does not model")
 			}
 		}
 	})
@@ -241,9 +241,9 @@ func ruleC13Isolation(c *Ctx) {
 			if fa, ok := st.Addr.(*ssa.FieldAddr); ok {
 				fi := fieldOfAddr(fa)
 				if fi.Struct != nil && isNamed(fi.Struct, "os/exec", "Cmd") {
-					switch fi.Var.Name() {
+					switch vname(fi.Var) {
 					case "Env", "Args", "Path", "Dir":
-						c.violate("C13.isolation", fnName(f)+":cmd."+fi.Var.Name(), st.Pos(), fnName(f), "exec.Cmd."+fi.Var.Name()+" is rewritten outside GitCommand, after the isolation settings were applied")
+						c.violate("C13.isolation", fnName(f)+":cmd."+vname(fi.Var), st.Pos(), fnName(f), "exec.Cmd."+vname(fi.Var)+" is rewritten outside GitCommand, after the isolation settings were applied")
 					}
 				}
 			}
@@ -494,6 +494,7 @@ func (c *Ctx) checkIsFull(isFull *ssa.Function) {
 	if !okArgv {
 		c.violate("C13.shallow", "GitPath:argv", gitPath.Pos(), fnName(gitPath), "GitPath no longer runs `rev-parse --git-path <relPath>`")
 	}
+	c.checkGitPathAnswer(gitPath)
 	if statCall == nil {
 		c.violate("C13.shallow", "IsFull:stat", isFull.Pos(), name, "IsFull does not stat the shallow file")
 		return
@@ -934,5 +935,96 @@ func ruleC13StartDir(c *Ctx) {
 	}
 	if n == 0 {
 		c.notDecided("C13.gitdir", "start-dir", token.NoPos, "no call of the discovery function from outside package git found")
+	}
+}
+
+// checkGitPathAnswer: the path GitPath returns is git's whole answer with
+// at most its line end trimmed. A path may contain blanks; taking a field,
+// a split part or a slice of the answer names another file (and the shallow
+// marker is then not found).
+func (c *Ctx) checkGitPathAnswer(gitPath *ssa.Function) {
+	if gitPath == nil {
+		return
+	}
+	trims := map[string]bool{
+		"bytes.TrimSpace": true, "strings.TrimSpace": true, "bytes.TrimRight": true, "strings.TrimRight": true,
+		"bytes.TrimSuffix": true, "strings.TrimSuffix": true,
+	}
+	var walk func(v ssa.Value, depth int) string
+	walk = func(v ssa.Value, depth int) string {
+		if depth > 8 {
+			return "?"
+		}
+		switch x := c.resolve(v).(type) {
+		case *ssa.Convert:
+			return walk(x.X, depth+1)
+		case *ssa.ChangeType:
+			return walk(x.X, depth+1)
+		case *ssa.Extract:
+			if call, ok := x.Tuple.(*ssa.Call); ok && x.Index == 0 {
+				if q := calleeQ(&call.Call); q == "(*os/exec.Cmd).Output" || q == "(*os/exec.Cmd).CombinedOutput" {
+					return "ok"
+				}
+			}
+			return "?"
+		case *ssa.Call:
+			q := calleeQ(&x.Call)
+			if trims[q] {
+				return walk(x.Call.Args[0], depth+1)
+			}
+			if strings.Contains(q, "Fields") || strings.Contains(q, "Split") || strings.Contains(q, "Cut") || strings.Contains(q, "Index") {
+				return "part:" + q
+			}
+			return "?"
+		case *ssa.Slice:
+			return "part:a slice expression"
+		case *ssa.UnOp:
+			if ia, ok := x.X.(*ssa.IndexAddr); ok {
+				if r := walk(ia.X, depth+1); strings.HasPrefix(r, "part:") {
+					return r
+				}
+				return "part:an element of a split"
+			}
+			return "?"
+		case *ssa.Phi:
+			worst := "ok"
+			for _, e := range x.Edges {
+				r := walk(e, depth+1)
+				if strings.HasPrefix(r, "part:") {
+					return r
+				}
+				if r == "?" {
+					worst = "?"
+				}
+			}
+			return worst
+		}
+		return "?"
+	}
+	n := 0
+	for _, ret := range returnsOf(gitPath) {
+		if len(ret.Results) != 2 {
+			continue
+		}
+		isErr := false
+		for _, e := range c.resultValues(ret, 1) {
+			if !isNilConst(e) {
+				isErr = true
+			}
+		}
+		if isErr {
+			continue
+		}
+		n++
+		for _, v := range c.resultValues(ret, 0) {
+			switch r := walk(v, 0); {
+			case r == "ok":
+				c.hold("C13.shallow", "GitPath:whole-answer", ret.Pos(), "the path returned is git's answer with only its end trimmed")
+			case strings.HasPrefix(r, "part:"):
+				c.violate("C13.shallow", "GitPath:whole-answer", ret.Pos(), fnName(gitPath), "the path returned is only a part of git's answer ("+strings.TrimPrefix(r, "part:")+"): a repository path containing a blank or the separator is cut short, the shallow marker is looked for in the wrong place and a shallow clone is measured")
+			default:
+				c.notDecided("C13.shallow", "GitPath:whole-answer", ret.Pos(), "the path returned is derived from git's answer in a way the rule does not follow")
+			}
+		}
 	}
 }
